@@ -567,7 +567,9 @@ def check(run):
         "harness/flat_drv.c intercepts fcache_pread, fcache_get_chunk, malloc, calloc, realloc, free "
         "with ld --wrap (no source change); the white-box run uses the read(2) policy of the file cache",
         "harness/diskset_drv.c (#include of sadump.c; builds sadump_priv / one-page regions by hand and "
-        "intercepts fcache_pread); the SADUMP header parsing that fills sp->ext[] is exercised end to end only",
+        "intercepts fcache_pread); reading the SADUMP header fields from the file is exercised end to end "
+        "only; the checks on the fields are modelled (DiskSetModel.probe_set) and tied through the status of "
+        "kdump_open_fdset, with the header fields taken from the configuration given to tests/mksadump",
         "lib/kdv/flatten.py (the flattener used to produce streams; its output is compared with "
         "FlatSpec.encode on every well-formed case)"]
     run.assumptions += [
